@@ -57,17 +57,24 @@ def handle (op : String) (j : Json) : Option Json :=
     let listedOf0 := fun (us : List Use) =>
       let pairs := (us.map fun u => (u.layer, u.pid)).eraseDups
       let sorted := sortBy (fun a b => bytesLt (a.1 ++ [0, a.2]) (b.1 ++ [0, b.2])) pairs
-      Json.arr (sorted.map fun (l, p) => Json.arr #[jb l, Json.num p]).toArray
+      Json.arr (sorted.map fun (l, p) =>
+        let mine := us.filter fun u => u.layer == l && u.pid == p
+        let kind := if mine.any (·.usedAs == 0) then "chroot" else if mine.any (·.usedAs == 1) then "cwd" else "other"
+        Json.arr #[jb l, Json.num p, Json.str kind]).toArray
     let model := match findLayerUsers layers procs with
       | .ok us => obj [("cls", "ok"), ("uses", Json.arr ((canon us).map jUse).toArray), ("listed", listedOf0 us)]
       | .error _ => obj [("cls", "err")]
     let impl := getObj j "impl"
     let expected := Json.arr ((canon (specUses layers hs)).map jUse).toArray
     -- `status <layer>` lists every process that uses the layer exactly once
+    -- … with its kind: chrooted into the layer, working in it, or merely holding something open
     let listedOf := fun (us : List Use) =>
       let pairs := (us.map fun u => (u.layer, u.pid)).eraseDups
       let sorted := sortBy (fun a b => bytesLt (a.1 ++ [0, a.2]) (b.1 ++ [0, b.2])) pairs
-      Json.arr (sorted.map fun (l, p) => Json.arr #[jb l, Json.num p]).toArray
+      Json.arr (sorted.map fun (l, p) =>
+        let mine := us.filter fun u => u.layer == l && u.pid == p
+        let kind := if mine.any (·.usedAs == 0) then "chroot" else if mine.any (·.usedAs == 1) then "cwd" else "other"
+        Json.arr #[jb l, Json.num p, Json.str kind]).toArray
     let expectedListed := listedOf (specUses layers hs)
     let holds := getStr impl "cls" == "ok" && getObj impl "uses" == expected && getObj impl "listed" == expectedListed
     -- recorded finding: the kernel shows an unlinked directory as "<path> (deleted)"; a process
